@@ -6,7 +6,7 @@
 #![allow(non_snake_case, unused_imports, dead_code, static_mut_refs, clippy::all)]
 
 use super::*;
-use crate::arena::bump::verif_kani as bk;
+use crate::arena::verif_bump as bk;
 use std::alloc::{Allocator, Layout};
 
 fn any_state(chunks: usize) -> (usize, usize) {
